@@ -390,6 +390,60 @@ pub fn run(ctx: Arc<Ctx>) {
 		}
 		ctx.outcome_n("dense-patch overlays over pairs of real container files", n);
 	}
+	// a zero-length tile in an earlier source is a tile: it wins on lookups and in streams alike (sources read through
+	// the trait's default box stream, real directory and tar files)
+	{
+		let mk = |tag: &str, keys: &[(Key, bool)]| -> TileMap { keys.iter().map(|(k, empty)| (*k, if *empty { vec![] } else { format!("{tag}:{}/{}/{}", k.0, k.1, k.2).into_bytes() })).collect() };
+		let a = mk("a", &[((5, 1, 1), true), ((5, 2, 1), false), ((5, 3, 1), true)]);
+		let b = mk("b", &[((5, 1, 1), false), ((5, 3, 1), false), ((5, 4, 1), false), ((5, 2, 1), false)]);
+		let want: BTreeMap<Key, Vec<u8>> = [((5u8, 1u32, 1u32), vec![]), ((5, 2, 1), b"a:5/2/1".to_vec()), ((5, 3, 1), vec![]), ((5, 4, 1), b"b:5/4/1".to_vec())].into_iter().collect();
+		let mut variants: Vec<(String, pipeline::AnySrc)> = vec![];
+		let fac = pipeline::factory(vec![MemSource::new("a", a.clone(), TileFormat::BIN, TileCompression::Uncompressed).as_plain(), MemSource::new("b", b.clone(), TileFormat::BIN, TileCompression::Uncompressed).as_plain()], &work.0);
+		if let Ok(op) = pipeline::build_op(&rt, &fac, "from_overlayed [ from_container filename=\"mem:0\", from_container filename=\"mem:1\" ]") {
+			variants.push(("readers with the trait's default box stream".into(), AnySrc::Op(op)));
+		}
+		for (cont, ext) in [(Cont::Directory, "dir"), (Cont::Tar, "tar")] {
+			let files = |t: &TileMap| -> Vec<(String, Vec<u8>)> { t.iter().map(|(k, v)| (format!("{}/{}/{}.bin", k.0, k.1, k.2), v.clone())).collect() };
+			for (name, t) in [("ea", &a), ("eb", &b)] {
+				let path = work.0.join(format!("{name}.{ext}"));
+				if cont == Cont::Directory {
+					let _ = std::fs::remove_dir_all(&path);
+					codec::dir_write(&path, &files(t)).unwrap();
+				} else {
+					std::fs::write(&path, codec::tar_write(&files(t), codec::TarLayout { dot_prefix: false, dir_entries: false, gnu: false, reversed: false, meta_last: false })).unwrap();
+				}
+			}
+			let fac = pipeline::factory(vec![], &work.0);
+			let vpl = format!("from_overlayed [ from_container filename=\"ea.{ext}\", from_container filename=\"eb.{ext}\" ]");
+			match pipeline::build_op(&rt, &fac, &vpl) {
+				Ok(op) => variants.push((format!("real {} sources", cont.name()), AnySrc::Op(op))),
+				Err(e) => ctx.violation(&format!("overlay over container files cannot be built: {}", super::c01::norm_msg(&e)), &format!("{vpl}: {e}"), json!({"vpl": vpl})),
+			}
+		}
+		for (name, op) in variants {
+			ctx.eval();
+			let case = json!({"family": "zero-length tile in the first source", "sources": name});
+			let mut looked: BTreeMap<Key, Vec<u8>> = BTreeMap::new();
+			for k in want.keys().chain([(5u8, 9u32, 9u32)].iter()) {
+				if let Ok(Ok(Some(b))) = catch(|| rt.block_on(op.lookup(*k))) {
+					looked.insert(*k, b);
+				}
+			}
+			if looked != want {
+				ctx.violation("overlay lookup returns another source's tile than the first listed one that has it", &format!("{name}, zero-length tiles in the first source: lookups give {:?}", looked.iter().map(|(k, v)| (k, String::from_utf8_lossy(v).to_string())).collect::<Vec<_>>()), case.clone());
+			}
+			match catch(|| rt.block_on(op.stream(TileBBox::new(5, 0, 0, 31, 31).unwrap()))) {
+				Ok(items) => {
+					let got: BTreeMap<Key, Vec<u8>> = items.into_iter().collect();
+					if got != want {
+						ctx.violation("overlay stream returns another source's tile than the first listed one that has it", &format!("{name}, zero-length tiles in the first source: the stream gives {:?}", got.iter().map(|(k, v)| (k, String::from_utf8_lossy(v).to_string())).collect::<Vec<_>>()), case.clone());
+					}
+				}
+				Err(p) => ctx.violation(&format!("overlay stream panics at {}", panic_site(&p)), &p, case.clone()),
+			}
+			ctx.nontrivial(fnv_str(&format!("empty-first {name}")));
+		}
+	}
 	ctx.sample(json!({"family": fams[1].name, "coordinates": fams[1].coords, "k": 3, "assignment_example": [5, 2, 7, 0], "meaning": "bit j of entry i = source j holds coordinate i"}));
 	ctx.exhaustive(true);
 	drop(work);
